@@ -27,6 +27,12 @@ CLAIMS = {
          "DESIGN.md §3 C20",
          "Trusted: rustc borrow checker and std::thread::scope; per-item determinism is delegated to C11/C12 rules.",
          "MIR dataflow + polynomial identity of partition indices + type/field walk for shared state", True),
+
+ "C18": ("other",
+         "Taint/dominance analysis on MIR of all 30 ReaderFrom impls (+ inherent readers) and their writers: stream-derived header values never enter unchecked arithmetic, allocation lengths or slice bounds that are not compared with the very slice indexed; dimension fields are committed only after a dominating validation chain that ends at the receiver's buffer; no failure is reachable after a metadata commit (documented atomicity); writer and reader emit/consume the same sequence of (width, endianness, field, nesting) items on every success path; no backend code involved. Decides the reject-without-corruption and format-agreement clauses for every stream at once; equality of payload bytes is not decided.",
+         "DESIGN.md §3 C18",
+         "Trusted: std::io read_exact/write_all and byteorder semantics; genuine violations on the unchanged tree are listed in known_findings.jsonl (wrappers commit metadata before delegating).",
+         "MIR taint tracking + dominator-based guard validation + path-trace comparison of writer/reader", True),
 }
 NOT_BUILT = {}
 
